@@ -19,6 +19,8 @@ NO_THROW_IN_PRACTICE = [
     r"std::(transform|equal|all_of|any_of|none_of|accumulate|inner_product|copy|copy_n|fill|fill_n|for_each|begin|end|cbegin|cend|size|data|get|tie|make_tuple|forward_as_tuple|exchange|swap|make_optional|make_pair|as_const|addressof)$",
     r"std::(tuple|pair|reference_wrapper)<.*>",
     r"std::operator(==|!=|<|>|<=|>=)$",   # of tuples of references / arithmetic values (std::tie comparisons)
+    r"std::(less|greater|less_equal|greater_equal|equal_to|not_equal_to)<.*>::operator\(\)$",   # the built-in comparison of the arguments
+    r"std::(less|greater|less_equal|greater_equal|equal_to|not_equal_to)<.*>::(less|greater|less_equal|greater_equal|equal_to|not_equal_to)$",
     r"(acos|sqrt|pow|cbrt|exp|log|log2|log10|tolower|toupper|abs|fabs)$",
     # <cmath>: report errors through errno / floating-point exceptions, never by throwing
     r"(std::)?(a?sin|a?cos|a?tan|atan2|sinh|cosh|tanh|asinh|acosh|atanh|hypot|fabs|fmin|fmax|fdim|fma|floor|ceil|round|trunc|fmod|remainder|exp2|expm1|log1p|"
@@ -203,9 +205,11 @@ def index_bounded_by_callers(F, f, depth=0, seen=None):
         return None, "not a helper that only the library calls"
     seen.add(f["id"])
     callers = sorted({cid for cid, _ in site_guards(F).get(f["id"], [])})
-    if not callers:
+    if not [c for c in callers if c != f["id"]]:
         return None, "no call site in the library"
     for cid in callers:
+        if cid in seen:
+            continue      # the helper's own recursive call: followed concretely when the outer callers are evaluated
         c = F.fns.get(cid)
         if c is None or "body" not in c:
             return None, "caller without body"
@@ -320,6 +324,8 @@ def run(chk):
     chk.rule("R8", "no library function writes a variable with static storage duration and no function-local static is non-const (no hidden mutable state)")
     chk.rule("R7", "no reference variable or returned reference is bound to the result of a call that returns a reference when an argument of that call is a temporary (std::clamp/min/max idiom)")
     chk.rule("R9", "no operator* / operator-> on a std::optional in a function that never tests it (has_value / bool); no integer division or remainder by a non-constant divisor")
+    chk.rule("R10", "no unbounded recursion: the resolved call graph of the instantiated library functions has no cycle, or every function on a cycle, evaluated on "
+                    "symbolic inputs, returns on every path within the evaluator's call depth (a path that keeps re-entering the cycle without progress exhausts the stack)")
     chk.rule("R0", "positive controls: the scanners fire on a control TU fragment containing each forbidden construct")
     chk.assumptions += ["static analysis decides the clauses the statement names (lookups hit, exception escape, parser totality, definite initialisation inside "
                         "the library, integer/enum discipline); general memory safety beyond these clauses is NOT decided",
@@ -730,6 +736,51 @@ def run(chk):
         chk.holds("R7", "all library bodies", "no reference outlives a temporary it may refer to", "")
     for k, v in controls.items():
         (chk.holds if v > 0 else chk.inconclusive)("R0", "control:" + k, "scanner matched the control construct %d time(s)" % v, "driver")
+    # R10: recursion
+    n_fns = 0
+    for T in NUMERIC:
+        F = facts.load(T, chk.tier)
+        lib = lambda f: f["loc"].startswith(frontend.INC) and not f["name"].startswith("phq_verif_control")
+        n_fns += sum(1 for f in F.fns.values() if "body" in f and lib(f))
+        groups = cg.recursive_groups(F, lib)
+        for comp in groups:
+            names = [F.fns[i]["name"] for i in comp]
+            inst = "cycle<%s>: %s" % (T, " -> ".join(re.sub(r"PhQ::", "", n)[:60] for n in names[:4]) + (" ..." if len(names) > 4 else ""))
+            loc = short(F.fns[comp[0]].get("def_loc", F.fns[comp[0]]["loc"]))
+            verdict, why = True, "every function of the cycle returns on every path"
+            # entry points of the cycle: its members that anyone may call, and - for members that only the library calls
+            # (PhQ::Internal helpers, lambdas: their parameters are whatever the callers pass) - the callers outside the cycle
+            entries, seen_e = [], set()
+            for i in comp:
+                f = F.fns[i]
+                if not is_local_helper(f):
+                    entries.append(i)
+                else:
+                    for cid, _g in site_guards(F).get(i, []):
+                        if cid not in comp and cid in F.fns and "body" in F.fns[cid]:
+                            entries.append(cid)
+            entries = [i for i in entries if not (i in seen_e or seen_e.add(i))]
+            if not entries:
+                verdict, why = None, "no entry point into the cycle found"
+            for i in entries:
+                f = F.fns[i]
+                try:
+                    E = ev.Evaluator(F)
+                    E.run_symbolic(f)
+                except ev.Inconclusive as x:
+                    if "call depth exceeded" in str(x):
+                        verdict, why = False, "%s re-enters the cycle without making progress on some path (%s): unbounded recursion, the stack is exhausted" % (f["name"], x)
+                        break
+                    verdict, why = None, "%s could not be evaluated (%s)" % (f["name"], str(x)[:100])
+            if verdict is True:
+                chk.holds("R10", inst, why, loc)
+            elif verdict is False:
+                chk.violated("R10", inst, why, loc)
+            else:
+                chk.inconclusive("R10", inst, why, loc)
+        if not groups:
+            chk.holds("R10", "call graph <%s>" % T, "acyclic over the instantiated library functions", "", nontrivial=True)
+    chk.floor("library functions in the call graph (x3)", n_fns, 30000)
     for inst, (why, loc) in sorted(helper_deferred.items()):
         if inst not in helper_discharged:
             chk.violated("R2", inst, "%s and no instantiation (float, double, long double) calls this helper from inside try { } catch (...)" % why, loc)
